@@ -1,6 +1,7 @@
 package rules
 
 import (
+	"fmt"
 	"go/token"
 	"go/types"
 	"os"
@@ -47,6 +48,7 @@ func C09(r *core.Run) {
 	rule096(r)
 	rule097(r, reach)
 	rule098(r)
+	rule099(r)
 }
 
 // reviewed is one entry of the reviewed discharge table. Keys are structural
@@ -1207,8 +1209,29 @@ func rule092(r *core.Run) {
 			"default arm returns "+strings.Join(errCodes(s), ","), "route function has no default arm returning an S3 error code")
 	}
 	if rb := mustFunc(r, "gofakes3.(*GoFakeS3).routeBase"); rb != nil {
-		nf := r.P.CallsIn(rb, false, core.NameIs("net/http.NotFound"))
-		r.Check(len(nf) == 1, "R09.2", key(fname(r, rb), "http.NotFound"), r.P.Pos(rb.Pos()), "chain ends in http.NotFound", "routeBase no longer answers unrouted requests with http.NotFound")
+		// every way through routeBase answers: it runs a route (or listBuckets) or http.NotFound
+		live := core.LiveBlocks(rb)
+		nf := 0
+		answers := func(in ssa.Instruction) bool {
+			c, ok := in.(ssa.CallInstruction)
+			if !ok {
+				return false
+			}
+			cn := r.P.CalleeName(c)
+			return cn == "net/http.NotFound" || strings.HasPrefix(cn, "gofakes3.(*GoFakeS3).route") || cn == "gofakes3.(*GoFakeS3).listBuckets"
+		}
+		core.Instrs(rb, func(in ssa.Instruction) {
+			if c, ok := in.(ssa.CallInstruction); ok && r.P.CalleeName(c) == "net/http.NotFound" && in.Block().Index < len(live) && live[in.Block().Index] {
+				nf++
+			}
+		})
+		silent := ""
+		for _, ret := range core.Returns(rb) {
+			if core.ReachableFromEntryAvoiding(ret, answers) {
+				silent = pos(r, ret)
+			}
+		}
+		r.Check(nf >= 1 && silent == "", "R09.2", key(fname(r, rb), "http.NotFound"), r.P.Pos(rb.Pos()), "every path runs a route or http.NotFound", "routeBase no longer answers unrouted requests with http.NotFound (a return at "+silent+" is reachable without a route or NotFound having run)")
 	}
 	r.Floor("R09.2", 8, "route functions")
 }
@@ -1695,6 +1718,22 @@ func rule091local(r *core.Run, reach map[*ssa.Function]bool) {
 					}
 				}
 			}
+			if !ok2 {
+				// path by path: the value the merge has when this instruction executes, with the
+				// function's flags and the outcomes of the branches taken carried along (`mu, known =
+				// m[id]` under `if known`, then `if !known { return }`: the nil edge never gets here)
+				if vals, complete := core.ValuesOnPathsAssuming(nil, in, ph, nil); complete && len(vals) > 0 {
+					ok2 = true
+					for _, v := range vals {
+						if core.IsNilConst(v) {
+							ok2 = false
+						}
+						if _, stillPhi := v.(*ssa.Phi); stillPhi {
+							ok2 = false
+						}
+					}
+				}
+			}
 			r.Check(ok2, "R09.1l", key(fname(r, f), "possibly-nil local dereferenced", sprintf("#%d", n)), pos(r, in), "guarded non-nil", "a local pointer that is nil on some path reaching here is dereferenced without a dominating non-nil test: the request panics")
 		})
 	}
@@ -1825,11 +1864,87 @@ func rule091result(r *core.Run, reach map[*ssa.Function]bool) {
 						}
 					}
 				}
+				if !ok {
+					// the same lookup (same callee, same argument values) was made before in this function
+					// and that result is known non-nil here: a repeated look-up inside one transaction /
+					// critical section finds what the first one found (unless a bucket is removed in between)
+					if c1, isCall := v.(*ssa.Call); isCall && !removesBucket(r, f) {
+						for _, w := range vals {
+							c2, isCall2 := w.(*ssa.Call)
+							if !isCall2 || c2 == c1 || r.P.CalleeName(c2) != r.P.CalleeName(c1) || len(c2.Call.Args) != len(c1.Call.Args) || !core.Dominates(c2, u) {
+								continue
+							}
+							same := true
+							for i := range c1.Call.Args {
+								if !sameStableValue(f, c1.Call.Args[i], c2.Call.Args[i]) {
+									same = false
+								}
+							}
+							if !same {
+								continue
+							}
+							if core.NilnessAt(c2, u.Block()) == core.NonNil {
+								ok = true
+							}
+							for _, g := range core.GuardsOf(u) {
+								if isNil, k := core.ErrNilFact(g, c2); k && !isNil {
+									ok = true
+								}
+							}
+						}
+					}
+				}
 				r.Check(ok, "R09.1r", key(fname(r, f), "possibly-nil lookup result dereferenced", sprintf("#%d", n)), pos(r, u), "guarded non-nil", "the result of a lookup that can come back nil ("+valueDesc(r, v)+") is used here without a dominating non-nil test (or on the side where it was found nil): a missing bucket / key / version ends in a nil dereference instead of the S3 error")
 			}
 		}
 	}
 	r.Held("R09.1r", key("repo", "nilable lookup results enumerated"), "", sprintf("%d dereferences examined", n))
+}
+
+// sameStableValue: the same SSA value, or two loads of one variable (a captured
+// variable or a local) that fn never stores to.
+func sameStableValue(fn *ssa.Function, a, b ssa.Value) bool {
+	if a == b {
+		return true
+	}
+	la, ok1 := a.(*ssa.UnOp)
+	lb, ok2 := b.(*ssa.UnOp)
+	if !ok1 || !ok2 || la.Op != token.MUL || lb.Op != token.MUL || la.X != lb.X {
+		return false
+	}
+	switch la.X.(type) {
+	case *ssa.FreeVar, *ssa.Alloc:
+	default:
+		return false
+	}
+	stored := false
+	core.Instrs(fn, func(in ssa.Instruction) {
+		if st, ok := in.(*ssa.Store); ok && st.Addr == la.X {
+			stored = true
+		}
+	})
+	if _, isAlloc := la.X.(*ssa.Alloc); isAlloc {
+		// a local: one initialising store is expected; more than one makes it unstable
+		n := 0
+		core.Instrs(fn, func(in ssa.Instruction) {
+			if st, ok := in.(*ssa.Store); ok && st.Addr == la.X {
+				n++
+			}
+		})
+		return n <= 1
+	}
+	return !stored
+}
+
+// removesBucket: fn (or one of its closures) deletes a bolt bucket.
+func removesBucket(r *core.Run, fn *ssa.Function) bool {
+	found := false
+	core.Instrs(fn, func(in ssa.Instruction) {
+		if c, ok := in.(ssa.CallInstruction); ok && strings.HasSuffix(r.P.CalleeName(c), ").DeleteBucket") {
+			found = true
+		}
+	})
+	return found
 }
 
 func valueDesc(r *core.Run, v ssa.Value) string {
@@ -1844,4 +1959,78 @@ func valueDesc(r *core.Run, v ssa.Value) string {
 		return "map lookup"
 	}
 	return v.Name()
+}
+
+// refusedByDesign: operations that always answer an error, with the reason (reviewed).
+var refusedByDesign = map[string]string{
+	"s3afero.(*SingleBucketBackend).CreateBucket": "the single-bucket backend serves exactly one, fixed bucket: creating buckets is refused",
+	"s3afero.(*SingleBucketBackend).DeleteBucket": "the single-bucket backend serves exactly one, fixed bucket: deleting it is refused",
+}
+
+// rule099 — no operation is left without a way to succeed.
+func rule099(r *core.Run) {
+	r.Rule("R09.9", "every handler, every method of the backends and of the uploader, and the shared helpers they go through, that returns an error has at least one return whose error is not known to be non-nil: an operation that can only fail (a guard that has become constant, a lookup whose 'not found' arm swallowed the rest) answers every request with an error — positive control: the error constructors of the repository are recognised as always-failing")
+	inScope := func(name string) bool {
+		for _, p := range []string{"gofakes3.(*GoFakeS3).", "gofakes3.(*uploader).", "s3mem.(*Backend).", "s3mem.(*bucket).", "s3mem.(*bucketObject).", "s3bolt.(*Backend).", "s3bolt.(*metaBucket).", "s3bolt.(*boltObject).",
+			"s3afero.(*MultiBucketBackend).", "s3afero.(*SingleBucketBackend).", "s3afero.(*metaStore).", "gofakes3.(*ObjectRangeRequest).", "gofakes3.(*chunkedReader).", "gofakes3.(*hashingReader)."} {
+			if strings.HasPrefix(name, p) {
+				return true
+			}
+		}
+		switch name {
+		case "gofakes3.ReadAll", "gofakes3.CopyObject", "gofakes3.MergeMetadata", "gofakes3.ValidateBucketName", "gofakes3.parseRangeHeader", "gofakes3.parseClampedInt", "gofakes3.listBucketPageFromQuery", "gofakes3.listBucketVersionsPageFromQuery":
+			return true
+		}
+		return false
+	}
+	n, ctl := 0, 0
+	for _, fn := range r.P.RepoFuncs() {
+		res := fn.Signature.Results()
+		if res.Len() == 0 || !core.IsErrorType(res.At(res.Len()-1).Type()) || len(fn.Blocks) == 0 {
+			continue
+		}
+		name := fname(r, fn)
+		canSucceed := false
+		for ret, ev := range returnedErrors(fn) {
+			ev = core.BlockLocalLoad(ev)
+			if definitelyNil(r, ev) {
+				canSucceed = true
+				continue
+			}
+			if ph, ok := ev.(*ssa.Phi); ok {
+				for i, e := range ph.Edges {
+					at := ret.Block()
+					if ph.Block() == ret.Block() && i < len(at.Preds) {
+						at = at.Preds[i]
+					}
+					if core.NilnessAt(e, at) != core.NonNil {
+						canSucceed = true
+					}
+				}
+				continue
+			}
+			if core.NilnessAt(ev, ret.Block()) != core.NonNil {
+				canSucceed = true
+			}
+		}
+		if d := os.Getenv("GFS3_DEBUG_R099"); d != "" && strings.Contains(name, d) {
+			for ret, ev := range returnedErrors(fn) {
+				ev2 := core.BlockLocalLoad(ev)
+				fmt.Fprintf(os.Stderr, "R099 %s ret@%s ev=%v (%T) nil=%v nilness=%v\n", name, pos(r, ret), ev2, ev2, definitelyNil(r, ev2), core.NilnessAt(ev2, ret.Block()))
+			}
+		}
+		if !inScope(name) || refusedByDesign[name] != "" {
+			if !canSucceed {
+				ctl++ // an error constructor / always-failing stub: the control
+			}
+			continue
+		}
+		n++
+		r.Check(canSucceed, "R09.9", key(name, "can succeed"), r.P.Pos(fn.Pos()), "a return with a possibly-nil error exists",
+			"every return of "+name+" hands back an error that is known to be non-nil: the operation can no longer succeed for any input")
+	}
+	r.Floor("R09.9", 100, "operations returning an error")
+	if ctl < 3 {
+		r.Unresolved("R09.9: only %d always-failing functions recognised outside the operations (the error constructors BucketNotFound, KeyNotFound, ResourceError, … are the positive control)", ctl)
+	}
 }
